@@ -71,6 +71,8 @@ def oracle(case, io):
     any other failure is reported untagged and takes precedence."""
     if isinstance(io, dict) and "exc" in io:
         return "raised %s" % io["exc"]
+    if io.get("link_errors"):
+        return "the item is not aimed at the final position of its own stub in the layer below: " + io["link_errors"][0]
     ns, ls, mn, mx = L.model_opts(case["py"]["opts"])
     eps = F(1, 10 ** 9)        # double arithmetic of the implementation
     known = None
